@@ -511,6 +511,19 @@ impl<'a> Sim<'a> {
         // with the rest of the simulation when they are restarted (bounced).
         for (&addr, _rt) in stopped {
             let mut world = self.world.borrow_mut();
+            // Nothing runs on this host, but its network stack still answers:
+            // take due messages off the links so a SYN for a port nobody
+            // listens on any more is refused and a segment for a stream that
+            // is gone is reset, instead of waiting on the link forever.
+            {
+                let World {
+                    rng,
+                    topology,
+                    hosts,
+                    ..
+                } = world.deref_mut();
+                topology.deliver_messages(rng, hosts.get_mut(&addr).expect("missing host"));
+            }
             world.tick(addr, tick);
         }
 
